@@ -19,9 +19,11 @@ func Map(s string, mapType reflect.Type) (reflect.Value, error) {
 				return fmt.Errorf("Error casting map key")
 			}
 
-			val := m.MapIndex(newKeyCast.Elem())
+			// keys and values of user-defined named types are parsed as their underlying type
+			newKey := newKeyCast.Elem().Convert(keyType)
+			val := m.MapIndex(newKey)
 			if val.IsValid() {
-				return fmt.Errorf("duplicate key %q, already has value %q", newKeyCast.Elem(), val)
+				return fmt.Errorf("duplicate key %q, already has value %q", newKey, val)
 			}
 
 			newValCast, err := String(newValStr, valType)
@@ -29,7 +31,7 @@ func Map(s string, mapType reflect.Type) (reflect.Value, error) {
 				return fmt.Errorf("Error casting map val")
 			}
 
-			m.SetMapIndex(newKeyCast.Elem(), newValCast.Elem())
+			m.SetMapIndex(newKey, newValCast.Elem().Convert(valType))
 
 			return nil
 		})
